@@ -8,7 +8,7 @@ from .. import core, realcode
 from .execmodel_shim import col_letters
 from . import lexmodel
 
-TITLE_POOL = ['Data', 'Sheet 2', "it's", 'A1', 'SUM', 'Лист', '1st', 'x!y', 'IF', 'TRUE', 'a.b', 'a-b', "''", 'a,b', 'a(b)', 'a"b', 'B2:C3', "o'", 'Σ data', '2024']
+TITLE_POOL = ['Data', 'Sheet 2', "it's", 'A1', 'SUM', 'Лист', '1st', 'x!y', 'IF', 'TRUE', 'a.b', 'a-b', "''", 'a,b', 'a(b)', 'a"b', 'B2:C3', "o'", 'Σ data', '2024', ' Data', 'Data ', ' a b ']
 
 
 def planted(s, c, r):
@@ -117,6 +117,12 @@ def gen_case(book, rng):
     bad = rng.choice(['Nope', 'nope', book.titles[s] + 'x', book.titles[s].lower() + '_', 'Sheet9', '0', '1', '2', '7', '99', '01', str(s), '-1'])
     bad = bad if bad not in book.titles else bad + '9'
     pre = (bad + '!') if re.fullmatch(r'\w+', bad) and rng.random() < 0.5 else "'" + bad.replace("'", "''") + "'!"
+    if rng.random() < 0.3:
+        # a sheet that does not exist named on the second corner of an area: never resolved to some sheet
+        t2 = bad                                     # only titles that do not exist: a grammar that accepted Sheet!A1:Sheet!B2 for an existing sheet would not be wrong
+        p2 = (t2 + '!') if re.fullmatch(r'\w+', t2) else "'" + t2.replace("'", "''") + "'!"
+        good = book.prefix(s, own)
+        return own, '=' + rng.choice(['SUM(%sA1:%sA2)', '%sA1:%sB2']) % (good, p2), 'unknown', None
     return own, '=' + pre + rng.choice(['A1', 'A1:B2', '$A$1', 'A:A']), 'unknown', None
 
 
